@@ -95,6 +95,12 @@ func (a *AWSKMS) generateDataKey(ctx context.Context) (*kms.GenerateDataKeyOutpu
 			continue
 		}
 
+		// KMS names the key by its key ARN in the response, also when it was addressed by an alias.
+		// Record the identifier this client is configured with, which is what encryptAllRegions
+		// compares, so the generating region's ready-made ciphertext is used for its entry.
+		masterKeyARN := c.MasterKeyARN
+		resp.KeyId = &masterKeyARN
+
 		return resp, nil
 	}
 
